@@ -87,6 +87,21 @@ var contexts = []string{
 	"CMD L L",
 	"CMD L\nc09args END",
 	"CMD\tL # c09args NOT\nc09args END",
+	// a literal glued to plain text is one argument: contents + text
+	"CMD Ltai1",
+	"CMD preL b",
+	// the same stored block executed twice must give the same arguments twice
+	"TWICE CMD Ltai1 L",
+	"TWICE CMD a L",
+}
+
+// twice reports whether the context runs its command from a function that is
+// called twice.
+func twice(ctx string) (string, bool) {
+	if strings.HasPrefix(ctx, "TWICE ") {
+		return strings.TrimPrefix(ctx, "TWICE "), true
+	}
+	return ctx, false
 }
 
 var extraToks = []string{
@@ -251,14 +266,19 @@ func (c Case) Source() string {
 	if c.Pos == "params" {
 		cmd = "c09f"
 	}
-	ctx := c.context()
+	ctx, tw := twice(c.context())
 	if c.Pos == "parse" {
 		// one statement only: cut the context at the end of the first command
 		if i := strings.IndexAny(ctx, ";\n#"); i >= 0 {
 			ctx = strings.TrimRight(ctx[:i], " ")
 		}
+		tw = false
 	}
-	return strings.NewReplacer("CMD", cmd, "L", lit).Replace(ctx)
+	stmt := strings.NewReplacer("CMD", cmd, "L", lit).Replace(ctx)
+	if tw {
+		return "function c09twice {\n" + stmt + "\n}\nc09twice\nc09twice"
+	}
+	return stmt
 }
 
 // want is the list of argument vectors the program must print.
@@ -266,20 +286,20 @@ func (c Case) want() [][]string {
 	if c.isExpr() {
 		return [][]string{{c.S}}
 	}
-	ctx := c.context()
+	ctx, tw := twice(c.context())
 	var first []string
 	head := ctx
 	if i := strings.IndexAny(ctx, ";\n#"); i >= 0 {
 		head = ctx[:i]
 	}
 	for _, f := range strings.Fields(head)[1:] {
-		if f == "L" {
-			first = append(first, c.S)
-		} else {
-			first = append(first, f)
-		}
+		// no other word of a context contains a capital L
+		first = append(first, strings.ReplaceAll(f, "L", c.S))
 	}
 	out := [][]string{first}
+	if tw && c.Pos != "parse" {
+		out = append(out, first)
+	}
 	if c.Pos != "parse" && strings.Contains(ctx, "END") {
 		out = append(out, []string{"END"})
 	}
